@@ -51,6 +51,8 @@ type jstats struct {
 	emptyKey               bool
 	escapes, unicode, nums int
 	boundary               int
+	allowDup               bool // outside jwf on purpose: compared with the model (jfold) only
+	dups                   int
 }
 
 var strRunes = []rune{'a', 'b', 'Z', '0', ' ', '"', '\\', '/', '\b', '\f', '\n', '\r', '\t', 0, 0x1f, 0x7f,
@@ -226,7 +228,10 @@ func genValue(r *vh.Rng, st *jstats, depth, maxDepth int) *jval {
 			k = genStr(r, st, r.Chance(0.7))
 		}
 		if seen[k.S] {
-			continue // object keys stay pairwise distinct (guard jwf)
+			if !st.allowDup {
+				continue // object keys stay pairwise distinct (guard jwf)
+			}
+			st.dups++
 		}
 		seen[k.S] = true
 		if k.S == "" {
@@ -740,7 +745,7 @@ func runJSON(sum *vh.Summary, cw *vh.CaseWriter, text string, gen *jval, verbose
 }
 
 func genJSONCase(r *vh.Rng, sum *vh.Summary, cw *vh.CaseWriter) {
-	st := &jstats{}
+	st := &jstats{allowDup: r.Chance(0.06)}
 	maxDepth := pickOf(r, 0, 1, 1, 2, 2, 3, 3, 4, 6)
 	v := genValue(r, st, 0, maxDepth)
 	var sb strings.Builder
@@ -768,6 +773,15 @@ func genJSONCase(r *vh.Rng, sum *vh.Summary, cw *vh.CaseWriter) {
 	}
 	if st.boundary > 0 {
 		sum.Hist("json:boundary-number")
+	}
+	if st.dups > 0 {
+		// repeated keys: the converter folds them (json_convert_fold), encoding/json keeps the last;
+		// outside the property - the implementation is compared with the model only
+		sum.Hist("json:repeated-keys(model jfold only)")
+		skipOracle = true
+		runJSON(sum, cw, text, v, false)
+		skipOracle = false
+		return
 	}
 	failed := runJSONShrunk(sum, cw, text, v, "")
 	if !failed && nontrivial && len(sum.Samples) < 2 && st.depth >= 2 {
